@@ -276,6 +276,19 @@ func (h *Hist) vobs(vp base.Voteproof) string {
 func (h *Hist) observe(st *step, voted bool, hasDef bool, vps []base.Voteproof, cleaned bool) {
 	live, removed, pool := h.snapshot(st)
 	lastS, last := h.lastC()
+	// C06 clause on the ballotbox: the last point never moves to a lower height, and moves to an earlier (round, stage)
+	// of the same height only for a suffrage-confirm result while the previous last point was not a majority
+	if old := h.prevLast; old != nil {
+		switch {
+		case last == nil:
+			h.fail("lastpoint-moved-backward", fmt.Sprintf("last point %+v was reset", *old))
+		case last.h < old.h:
+			h.fail("lastpoint-moved-backward", fmt.Sprintf("last point %+v -> %+v", *old, *last))
+		case last.h == old.h && cmpSP(last.h, last.r, last.stage, old.h, old.r, old.stage) < 0 && !(last.sc && !old.maj):
+			h.fail("lastpoint-moved-backward", fmt.Sprintf("last point %+v -> %+v", *old, *last))
+		}
+	}
+	h.prevLast = last
 
 	vs := make([]string, len(vps))
 	for i := range vps {
@@ -433,6 +446,10 @@ func CheckVP(w *World, vp base.Voteproof, votedSP map[string]bool, fail func(cla
 	if err := isaac.IsValidVoteproofWithSuffrage(vp, suf); err != nil {
 		fail("vp-fails-validation", fmt.Sprintf("%v %T nsfs=%d: IsValidVoteproofWithSuffrage: %v", sp, vp, len(vp.SignFacts()), err))
 	}
+	// (c') the threshold it was counted with is not below the threshold of the box
+	if got := int(vp.Threshold().Float64()*10 + 0.5); got < w.th10 {
+		fail("vp-threshold-below-box", fmt.Sprintf("%v %T: threshold %d/10, the ballotbox counts with %d/10", sp, vp, got, w.th10))
+	}
 	// (d) fresh recount, independent of base.FindVoteResult
 	if _, stuck := vp.(base.StuckVoteproof); stuck {
 		return
@@ -475,6 +492,12 @@ func CheckVP(w *World, vp base.Voteproof, votedSP map[string]bool, fail func(cla
 		want = base.VoteResultMajority
 	case !reach(best + rest):
 		want = base.VoteResultDraw
+	}
+	// a majority must also be a majority under the threshold of the box (plain voteproofs)
+	if we, ok := vp.(base.HasExpels); (!ok || len(we.Expels()) == 0) && vp.Result() == base.VoteResultMajority {
+		if new(big.Int).Mul(big.NewInt(best), big.NewInt(1000)).Cmp(new(big.Int).Mul(big.NewInt(q), big.NewInt(int64(w.th10)))) < 0 {
+			fail("vp-recount-mismatch", fmt.Sprintf("%v: MAJORITY with %d of %d votes is not a majority under the threshold of the box %d/10", sp, best, q, w.th10))
+		}
 	}
 	if vp.Result() != want {
 		fail("vp-recount-mismatch", fmt.Sprintf("%v: result %s, recount %s (quorum %d, th %d/10, best %d of %d)", sp, vp.Result(), want, q, th10, best, total))
